@@ -206,6 +206,11 @@ func (e *Engine) Run(ops []string, res *report.Result) *report.Failure {
 		if len(w) < 2 {
 			return nil
 		}
+		// "$S" inside a token stands for a space (names that need escaping in a URL path); the model
+		// driver does the same substitution on the line it gets
+		for k := range w {
+			w[k] = strings.ReplaceAll(w[k], "$S", " ")
+		}
 		before := snapshot()
 		// ---- build the model line and the real action
 		line := ""
@@ -281,7 +286,7 @@ func (e *Engine) Run(ops []string, res *report.Result) *report.Failure {
 				}
 			case "add", "cadd":
 				at := attrText(7)
-				line = fmt.Sprintf("c %s %s %s %s %s %s %s", w[1], w[2], w[3], w[4], w[5], fracOf(w[6]), sortedAttrTokens(at))
+				line = fmt.Sprintf("c %s %s %s %s %s %s %s", w[1], enc(w[2]), enc(w[3]), w[4], w[5], fracOf(w[6]), sortedAttrTokens(at))
 				act = func() bool {
 					if w[1] == "add" {
 						p := cl.NewProxy()
@@ -294,7 +299,7 @@ func (e *Engine) Run(ops []string, res *report.Result) *report.Failure {
 				}
 			case "upd", "cupd":
 				at := attrText(5)
-				line = fmt.Sprintf("c %s %s %s %s %s", w[1], w[2], w[3], fracOf(w[4]), sortedAttrTokens(at))
+				line = fmt.Sprintf("c %s %s %s %s %s", w[1], enc(w[2]), enc(w[3]), fracOf(w[4]), sortedAttrTokens(at))
 				act = func() bool {
 					if w[1] == "upd" {
 						p := cl.NewProxy()
@@ -360,7 +365,7 @@ func (e *Engine) Run(ops []string, res *report.Result) *report.Failure {
 			// the toxics of a proxy, listed through a handle the caller has kept (and has listed
 			// through before): for the model this is the listing by name
 			if hp := handles[w[1]]; hp != nil {
-				line = "c toxics " + hp.Name
+				line = "c toxics " + enc(hp.Name)
 				act = func() bool {
 					ts, err := hp.Toxics()
 					listed, listedOK = ts, err == nil
@@ -384,7 +389,7 @@ func (e *Engine) Run(ops []string, res *report.Result) *report.Failure {
 				line, argv = op, []string{"delete", w[2]}
 			case "tadd":
 				at := attrText(7)
-				line = fmt.Sprintf("cli tadd %s %s %s %s %s %s", w[2], w[3], w[4], w[5], fracOf(w[6]), sortedAttrTokens(at))
+				line = fmt.Sprintf("cli tadd %s %s %s %s %s %s", enc(w[2]), enc(w[3]), w[4], w[5], fracOf(w[6]), sortedAttrTokens(at))
 				argv = []string{"toxic", "add"}
 				if w[3] != "-" {
 					argv = append(argv, "--toxicName", w[3])
@@ -402,7 +407,7 @@ func (e *Engine) Run(ops []string, res *report.Result) *report.Failure {
 				argv = append(argv, w[2])
 			case "tupd":
 				at := attrText(5)
-				line = fmt.Sprintf("cli tupd %s %s %s %s", w[2], w[3], fracOf(w[4]), sortedAttrTokens(at))
+				line = fmt.Sprintf("cli tupd %s %s %s %s", enc(w[2]), enc(w[3]), fracOf(w[4]), sortedAttrTokens(at))
 				argv = []string{"toxic", "update"}
 				if w[3] != "-" {
 					argv = append(argv, "-n", w[3])
@@ -477,6 +482,11 @@ func (e *Engine) Run(ops []string, res *report.Result) *report.Failure {
 		if of := keptOracle(i, fail, w, before, after, failed); of != nil {
 			return of
 		}
+		// a by-name read of a proxy the server has reports it (whatever characters the name has)
+		if failed && ((w[0] == "c" && (w[1] == "get" || w[1] == "toxics") && len(w) > 2 && e4.ProxyEntry(before, w[2]) != "") ||
+			(w[0] == "h" && w[1] == "fetch" && len(w) > 3 && e4.ProxyEntry(before, w[3]) != "")) {
+			return fail(i, "oracle", "C19", "the proxy", "error", "a client read of a proxy that the server has failed (the request did not address it)", "e5:C19:existing-proxy-not-found")
+		}
 		if strings.HasPrefix(model, "nondet ") {
 			res.Count("episode:stopped-at-map-order-nondeterminism")
 			break
@@ -518,6 +528,9 @@ func sameToxics(url, name string, got tclient.Toxics) (string, string, bool) {
 	cb, _ := json.Marshal(b)
 	return string(ca), string(cb), string(ca) == string(cb)
 }
+
+// enc writes a name as one token of the model's line protocol (a space as $S).
+func enc(s string) string { return strings.ReplaceAll(s, " ", "$S") }
 
 func cliAttrs(text string) []string {
 	jv, ok := e4.ParseJV(text)
